@@ -8,7 +8,7 @@ TECHNIQUE = 'bounded-exhaustive enumeration of the documented grammar (every sta
 ASSUMPTIONS = ['generator derived from docs/syntax.md production by production, nesting depth <=2 (thorough 3)', 'corruption = delete / duplicate / replace one token by each of 23 tokens']
 
 ATOMS = ['x', 'y2', '1', '2.5', '.5', '5.', '1e3', '3u', '"s"', "'q'", '"""t"""', 'true', 'false', 'null', '[]', '[1, x]', '{a: 1}', '{a: x, b: "s"}', '{}', 'r.a', 'r.a.b', 'l[0]', 'l[x][1]',
-         'F(x)', 'F()', 'G(x, k: 2)', 'G(k:)', '-x', '!b', 'P', 'nil', 'F(..r)', '(x)', '{a:, b:}', '"a\\"b"', "x_1y", '`t.u`(x)', 'a.b.C(x)']
+         'F(x)', 'F()', 'G(x, k: 2)', 'G(k:)', '-x', '!b', 'P', 'nil', 'F(..r)', '(x)', '{a:, b:}', '"a\\"b"', "x_1y", '`t.u`(x)', 'a.b.C(x)', 'then_v', 'else_v', 'limit_value', 'x_in', 'is_y', 'distinct_z', 'if_x', 'combine_x', 'in_list']
 BINOPS = ['||', '&&', '->', '==', '<=', '>=', '<', '>', '!=', '=', ' in ', ' is not ', ' is ', '++?', '++', '+', '-', '*', '/', '%', '^']
 CORRUPT = ['(', ')', '[', ']', '{', '}', ',', ';', ':', ':-', '|', '~', '=', '"', "'", '#', '/*', '?', '.', '-', 'x', 'in', 'distinct']
 
@@ -22,7 +22,7 @@ EXTRA = ['G := F(A: B);', 'G := F();', 'G := F(A: B, C: D);', '@Ground(T);', '@O
          'T(x? += 1, y? Max= z) distinct :- A(x, z);', 'T(x) = y :- A(x, y);', 'T(x) Max= y :- A(x, y);', 'T(x) :- A(x), ~B(x), ~(C(x) | D(x));', 'T(x) :- (A(x) | B(x)), (C(x) | D(x));',
          'T(x) :- A(x), y == (if x > 1 then 2 else if x > 0 then 1 else 0);', 'T(x) :- A(x) , B(x)  ;', 'T(x,y):-A(x,y);', 'T(x) :-\n  A(x),\n  B(x);\n', 'T(x)\n:- A(x);', 'T( x ) :- A( x );',
          'T(x) :- A(x), x > 1 && x < 3 || !(x == 2);', 'T(x) :- l == [1, 2, 3], x in l;', 'T({a: 1, b: {c: [1, {d: 2}]}});', 'T(r.a.b, l[0][1]) :- A(r, l);', 'T("x") :- A("y");', "T('x');",
-         'T(x) :- A(x: x, y: 1);', 'T(x) order_by(a: "b") :- A(x);', 'T(x) limit(n: 3) :- A(x);', 'T(x) order_by("a", b: "c") limit(2) :- A(x);', 'T(x:) :- A(x:);', 'T(-1, - 2, 3 - 1, (-x)) :- A(x);', 'T(1.5e3);', 'T(x) :- A(x), x != 1, x >= 2, x <= 3;']
+         'T(x) :- A(x: x, y: 1);', 'T(x) = limit_value :- A(limit_value);', 'T(y) :- A(x), y == (if x > 1 then then_v else else_v);', 'T(distinct_x) distinct :- A(distinct_x);', 'T(order_by_x) order_by("col0") :- A(order_by_x);', 'T(x) order_by(a: "b") :- A(x);', 'T(x) limit(n: 3) :- A(x);', 'T(x) order_by("a", b: "c") limit(2) :- A(x);', 'T(x:) :- A(x:);', 'T(-1, - 2, 3 - 1, (-x)) :- A(x);', 'T(1.5e3);', 'T(x) :- A(x), x != 1, x >= 2, x <= 3;']
 
 
 def exprs(depth):
